@@ -61,15 +61,18 @@ func NewChunker(fn string) (*Chunker, error) {
 	lineManifest := make([]lineAddr, 0)
 	curr := int64(0)
 	for {
-		line, err := byLines.Read()
+		// read raw so that the bytes of skipped blank lines are counted too
+		line, err := byLines.b.ReadSlice('\n')
 		if err != nil {
 			if err == io.EOF {
 				return &Chunker{fn: fn, lineManifest: lineManifest}, nil
 			}
 			return nil, err
 		}
-		end := curr + int64(len(line)) + 1 // +1 for '\n'
-		lineManifest = append(lineManifest, lineAddr{curr, end})
+		end := curr + int64(len(line)) // includes the '\n'
+		if len(line) > 1 {
+			lineManifest = append(lineManifest, lineAddr{curr, end})
+		}
 		curr = end
 	}
 }
